@@ -2,9 +2,9 @@
    Statements about `lex`, the model of parser.lex (compared with VerifLex on every run). Proofs: LexProofs.v.
    Layout invariance of the lexer is proved (white-space separators, comments anywhere between tokens), and so is the
    formatter: for every source the lexer accepts, IndentByParentheses returns a text with the same tokens and comments
-   (FormatProofs.v). PARTIAL: sources the lexer rejects (the formatted text should be rejected too) are covered by the
-   correspondence only. *)
-Require Import Base Opcode Tables Ops Tree Opt Flat Run Directives Lexer Parser Print LexProofs FormatProofs.
+   (FormatProofs.v), and a source the lexer rejects is still rejected after formatting (FormatReject.v): the formatter
+   clause holds for ANY input (prefix notation; in infix notation for every well-formed rendering). *)
+Require Import Base Opcode Tables Ops Tree Opt Flat Run Directives Lexer Parser Print LexProofs FormatProofs FormatReject.
 Open Scope Z_scope.
 
 (* the lexer inverts every rendering of a token list: any (possibly empty) run of Unicode white space between
@@ -88,10 +88,22 @@ Theorem C14_lex_complete : forall is_letter is_number fuel s toks, lex_loop is_l
   exists lead items, s = lead ++ render items /\ all_space lead /\ wf_items is_letter is_number false items /\ map fst items = toks.
 Proof. exact lex_complete. Qed.
 
-(* NOT proved (kept visible): that the formatter maps a text the lexer REJECTS to a text the lexer rejects. The
-   formatter's model is compared with Go's on every string of every run, rejected ones included. *)
-Definition C14_indent_rejected_statement : Prop :=
-  forall s, lex_tab false s = None -> lex_tab false (Print.indent_by_parens s) = None.
+(* a text the lexer REJECTS (a word that does not classify, a literal that is never closed) is still rejected after
+   formatting: the formatter treats what precedes the offending token as above and leaves the token in place
+   (FormatReject.v) *)
+Theorem C14_indent_rejected : forall s, lex_tab false s = None -> lex_tab false (indent_by_parens s) = None.
+Proof. exact (indent_rejected is_letter_tab is_number_tab eq_refl eq_refl). Qed.
+
+(* the formatter clause in full: for ANY input, what the parser is given after formatting is what it is given before *)
+Theorem C14_indent_statement : forall s,
+  option_map drop_comments (lex_tab false (indent_by_parens s)) = option_map drop_comments (lex_tab false s).
+Proof. exact (indent_meaning_all is_letter_tab is_number_tab eq_refl eq_refl). Qed.
+Theorem C14_indent_parse_all : forall c s, Parser.parse_source c false (indent_by_parens s) = Parser.parse_source c false s.
+Proof.
+  intros c s. unfold Parser.parse_source. destruct (lex_tab false s) as [toks|] eqn:E.
+  - rewrite (C14_indent_tokens s toks E), trim_last_drop. reflexivity.
+  - rewrite (C14_indent_rejected s E). reflexivity.
+Qed.
 
 (* non-vacuity: the same tokens under three layouts, with a string containing every delimiter *)
 Definition toks : list tok := [KLParen; KIdent (ss "="); KStr (ss "a (b); c
@@ -120,5 +132,6 @@ Proof. eexists. split; [vm_compute; reflexivity|split; [reflexivity|split; [vm_c
 Print Assumptions C14_lex_render.
 Print Assumptions C14_indent_tokens.
 Print Assumptions C14_indent_parse.
+Print Assumptions C14_indent_statement.
 Print Assumptions C14_layout_invariance.
 Print Assumptions C14_comments_invariance.
